@@ -149,9 +149,23 @@ fn supervise(args: &[String]) -> i32 {
   let id = args[2].clone();
   let tier = tier_of(args);
   let t0 = std::time::Instant::now();
-  let mut child = std::process::Command::new(&exe).arg("check-inner").args(&args[2..]).spawn().expect("spawn check-inner");
+  // the inner check leads a process group of its own: whatever it has started (shard children, replays of recorded
+  // cases) is ended with it, also when a subject crash takes the inner check down before it could wait for them
+  use std::os::unix::process::CommandExt;
+  let mut cmd = std::process::Command::new(&exe);
+  cmd.arg("check-inner").args(&args[2..]);
+  unsafe {
+    cmd.pre_exec(|| {
+      libc::setpgid(0, 0);
+      Ok(())
+    });
+  }
+  let mut child = cmd.spawn().expect("spawn check-inner");
   let pid = child.id();
   let st = child.wait().expect("wait");
+  unsafe {
+    libc::kill(-(pid as i32), libc::SIGKILL);
+  }
   // scratch files of the child
   let _ = std::fs::remove_dir_all(std::path::Path::new("/dev/shm").join(format!("rarena-verif-{}", pid)));
   if let Some(c) = st.code() {
